@@ -392,6 +392,19 @@ pub open spec fn decrst_one(o: Terminal, f: Terminal, m: DecMode) -> bool {
     }
 }
 
+/// [C01,C02] after `switch_to_primary_buffer(); restore_cursor();` (the ?1049l sequence) the
+/// terminal is in the state `reflow()` expects: the restored cursor lies inside the geometry of
+/// the buffer that has just become active again
+pub proof fn lemma_pre_reflow_1049l(o: Terminal, a: Terminal, b: Terminal)
+    requires
+        o.wf(),
+        post_switch_to_primary_buffer(o, a),
+        post_restore_cursor(a, b),
+    ensures
+        b.pre_reflow(),
+{
+}
+
 // GENERATED-FRAMES-BEGIN (gen_frames.py)
 impl Terminal {
     /// frame: every group except {buffer, dirty} is exactly what it was in `o`
